@@ -160,70 +160,70 @@ theorem sa_timerA_quantity (env : Env) (lt : Loc (PTimer α)) (s : Col α) (tm :
 /-! ### a frame for the timer table -/
 
 /-- the piece `m` leaves the three component tables alone -/
-structure TF {β : Type} (m : A α β) : Prop where
+structure TFs {β : Type} (m : A α β) : Prop where
   out : ∀ s, (m s).2.ingredients = s.ingredients ∧ (m s).2.cookware = s.cookware ∧ (m s).2.timers = s.timers
 
-theorem TF.pure {β : Type} (a : β) : TF (α := α) (Pure.pure a : A α β) := ⟨fun s => ⟨rfl, rfl, rfl⟩⟩
-theorem TF.get : TF (α := α) (get : A α (Col α)) := ⟨fun s => ⟨rfl, rfl, rfl⟩⟩
+theorem TFs.pure {β : Type} (a : β) : TFs (α := α) (Pure.pure a : A α β) := ⟨fun s => ⟨rfl, rfl, rfl⟩⟩
+theorem TFs.get : TFs (α := α) (get : A α (Col α)) := ⟨fun s => ⟨rfl, rfl, rfl⟩⟩
 
-theorem TF.bind {β γ : Type} {m : A α β} {f : β → A α γ} (hm : TF m) (hf : ∀ a, TF (f a)) :
-    TF (m >>= f) := by
+theorem TFs.bind {β γ : Type} {m : A α β} {f : β → A α γ} (hm : TFs m) (hf : ∀ a, TFs (f a)) :
+    TFs (m >>= f) := by
   constructor
   intro s
   obtain ⟨a1, a2, a3⟩ := hm.out s
   obtain ⟨b1, b2, b3⟩ := (hf (m s).1).out (m s).2
   exact ⟨b1.trans a1, b2.trans a2, b3.trans a3⟩
 
-theorem TF.ite {β : Type} {c : Prop} [Decidable c] {a b : A α β} (ha : TF a) (hb : TF b) :
-    TF (if c then a else b) := by
+theorem TFs.ite {β : Type} {c : Prop} [Decidable c] {a b : A α β} (ha : TFs a) (hb : TFs b) :
+    TFs (if c then a else b) := by
   split <;> assumption
 
-theorem TF.modify (f : Col α → Col α)
+theorem TFs.modify (f : Col α → Col α)
     (hf : ∀ s, (f s).ingredients = s.ingredients ∧ (f s).cookware = s.cookware ∧ (f s).timers = s.timers) :
-    TF (modify f : A α PUnit) := ⟨hf⟩
+    TFs (modify f : A α PUnit) := ⟨hf⟩
 
-theorem TF.apanic (site : String) : TF (α := α) (apanic site) := by
+theorem TFs.apanic (site : String) : TFs (α := α) (apanic site) := by
   unfold Cook.apanic
-  refine TF.modify _ (fun s => ?_)
+  refine TFs.modify _ (fun s => ?_)
   split <;> exact ⟨rfl, rfl, rfl⟩
 
-theorem TF.aerr (k : String) (l : List Span) : TF (α := α) (aerr k l) := ⟨fun s => ⟨rfl, rfl, rfl⟩⟩
-theorem TF.awarn (k : String) (l : List Span) : TF (α := α) (awarn k l) := ⟨fun s => ⟨rfl, rfl, rfl⟩⟩
+theorem TFs.aerr (k : String) (l : List Span) : TFs (α := α) (aerr k l) := ⟨fun s => ⟨rfl, rfl, rfl⟩⟩
+theorem TFs.awarn (k : String) (l : List Span) : TFs (α := α) (awarn k l) := ⟨fun s => ⟨rfl, rfl, rfl⟩⟩
 
-theorem TF.of_coreOnly {β : Type} {m : A α β} (h : CoreOnly m) : TF m := by
+theorem TFs.of_coreOnly {β : Type} {m : A α β} (h : CoreOnly m) : TFs m := by
   constructor
   intro s
   obtain ⟨_, _, h3, h4, h5, _⟩ := h.out s
   exact ⟨h3, h4, h5⟩
 
-syntax "tf_leaf" : tactic
-macro_rules | `(tactic| tf_leaf) => `(tactic| first
-  | with_reducible exact TF.pure _
-  | with_reducible exact TF.get
-  | with_reducible exact TF.apanic _
-  | with_reducible exact TF.aerr _ _
-  | with_reducible exact TF.awarn _ _
-  | ((with_reducible apply TF.modify); intro s; exact ⟨rfl, rfl, rfl⟩)
+syntax "tfs_leaf" : tactic
+macro_rules | `(tactic| tfs_leaf) => `(tactic| first
+  | with_reducible exact TFs.pure _
+  | with_reducible exact TFs.get
+  | with_reducible exact TFs.apanic _
+  | with_reducible exact TFs.aerr _ _
+  | with_reducible exact TFs.awarn _ _
+  | ((with_reducible apply TFs.modify); intro s; exact ⟨rfl, rfl, rfl⟩)
   | assumption)
 
 macro "tf_ok" : tactic => `(tactic|
   repeat' (first
-    | tf_leaf
-    | with_reducible apply TF.bind
-    | with_reducible apply TF.ite
+    | tfs_leaf
+    | with_reducible apply TFs.bind
+    | with_reducible apply TFs.ite
     | intro _
-    | (show TF _; dsimp only; show TF _)
-    | (show TF _; split)))
+    | (show TFs _; dsimp only; show TFs _)
+    | (show TFs _; split)))
 
 theorem sa_inStepTextStep_tf (env : Env) (t : Text) (items : List Item) :
-    TF (inStepTextStep (α := α) env t items) := by
+    TFs (inStepTextStep (α := α) env t items) := by
   unfold inStepTextStep; tf_ok
-macro_rules | `(tactic| tf_leaf) => `(tactic| with_reducible exact sa_inStepTextStep_tf ..)
+macro_rules | `(tactic| tfs_leaf) => `(tactic| with_reducible exact sa_inStepTextStep_tf ..)
 
-theorem sa_inStepText_tf (env : Env) (t : Text) : TF (inStepText (α := α) env t) := by
+theorem sa_inStepText_tf (env : Env) (t : Text) : TFs (inStepText (α := α) env t) := by
   unfold inStepText; tf_ok
 
-theorem sa_endBlock_tf (kind : BlockKind) : TF (endBlock (α := α) kind) := by
+theorem sa_endBlock_tf (kind : BlockKind) : TFs (endBlock (α := α) kind) := by
   unfold endBlock endBlockContent pushContent; tf_ok
 
 /-! ### the invariant -/
@@ -244,7 +244,7 @@ theorem QtyInv.congr {s s' : Col α} (h : QtyInv s) (hi : s'.ingredients = s.ing
     (hc : s'.cookware = s.cookware) (ht : s'.timers = s.timers) : QtyInv s' :=
   ⟨by rw [hi]; exact h.ingr, by rw [hc]; exact h.cw, by rw [ht]; exact h.tm⟩
 
-theorem QtyInv.of_tf {β : Type} {m : A α β} (hf : TF m) {s : Col α} (h : QtyInv s) : QtyInv (m s).2 :=
+theorem QtyInv.of_tf {β : Type} {m : A α β} (hf : TFs m) {s : Col α} (h : QtyInv s) : QtyInv (m s).2 :=
   h.congr (hf.out s).1 (hf.out s).2.1 (hf.out s).2.2
 
 /-- the back-link update of `ingredientA` keeps the quantities of the old entries -/
@@ -279,7 +279,7 @@ theorem sa_inStepComponent_qty (env : Env) (input : Str) (ev : Ev α) (items : L
     (hi : Inv env s) (hq : QtyInv s) (hb : s.block = some (.step items)) (hev : EvOK ev) :
     QtyInv (inStepComponent env input ev s).2 := by
   unfold inStepComponent
-  have hpanic : QtyInv (apanic "Unexpected event in step" s).2 := QtyInv.of_tf (TF.apanic _) hq
+  have hpanic : QtyInv (apanic "Unexpected event in step" s).2 := QtyInv.of_tf (TFs.apanic _) hq
   cases ev with
   | ingredient li =>
     simp only [A_bind]
@@ -346,18 +346,18 @@ theorem sa_inBlockComponent_qty (env : Env) (input : Str) (ev : Ev α) (s : Col 
   unfold inBlockComponent
   simp +instances only [A_bind, A_get]
   cases hb : s.block with
-  | none => simp only []; exact QtyInv.of_tf (TF.apanic _) hq
+  | none => simp only []; exact QtyInv.of_tf (TFs.apanic _) hq
   | some buf =>
     cases buf with
     | step items => simp only []; exact sa_inStepComponent_qty env input ev items s hi hq hb hev
-    | text b => simp only []; exact QtyInv.of_tf (TF.of_coreOnly (inTextComponent_coreOnly input ev b)) hq
+    | text b => simp only []; exact QtyInv.of_tf (TFs.of_coreOnly (inTextComponent_coreOnly input ev b)) hq
 
 theorem sa_processEvent_qty (env : Env) (input : Str) (ev : Ev α) (s : Col α) (hi : Inv env s)
     (hq : QtyInv s) (hev : EvOK ev) : QtyInv (processEvent env input ev s).2 := by
   cases ev with
   | frontMatter t => simp only [processEvent, A_modify]; exact hq.congr rfl rfl rfl
   | metadata k v =>
-    simp only [processEvent]; exact QtyInv.of_tf (TF.of_coreOnly (metadataA_coreOnly env k v)) hq
+    simp only [processEvent]; exact QtyInv.of_tf (TFs.of_coreOnly (metadataA_coreOnly env k v)) hq
   | «section» name => simp only [processEvent, A_modify]; exact hq.congr rfl rfl rfl
   | start kind => simp only [processEvent, A_modify]; exact hq.congr rfl rfl rfl
   | stop kind => simp only [processEvent]; exact QtyInv.of_tf (sa_endBlock_tf kind) hq
